@@ -12,7 +12,7 @@ TOKEN_RE = re.compile(r'''
   | (?P<lcomment>//[^\n]*)
   | (?P<bcomment>/\*.*?\*/)
   | (?P<pragma>pragma\b[^;]*;)
-  | (?P<string>(?:hex|unicode)?(?:"(?:[^"\\\n]|\\.)*"|'(?:[^'\\\n]|\\.)*'))
+  | (?P<string>(?:hex|unicode|address)?(?:"(?:[^"\\\n]|\\.)*"|'(?:[^'\\\n]|\\.)*'))
   | (?P<hexnum>0[xX][0-9a-fA-F_]+)
   | (?P<number>(?:[0-9][0-9_]*)?\.?[0-9][0-9_]*(?:[eE]-?[0-9_]+)?)
   | (?P<ident>[A-Za-z_$\u0080-\uffff][A-Za-z0-9_$\u0080-\uffff]*)
@@ -69,10 +69,29 @@ def relayout(src, rng, style):
     for i, (kind, text, s, e) in enumerate(toks):
         smap[s] = cur
         if kind == 'pragma':
-            # the directive is copied verbatim: offsets inside it (identifier, value) move with it
-            for k in range(e - s + 1):
-                smap.setdefault(s + k, cur + k)
-                emap.setdefault(s + k, cur + k)
+            # a pragma directive is one token for the solang lexer (its value is raw text).  Comments inside it are the
+            # known finding D14 and are never inserted; white space between ITS sub-tokens (`pragma`, the identifier,
+            # operators, version numbers, `;`) is layout for a reader of Solidity, so it is re-laid out as well (never
+            # inside a version number); the start of every sub-token is mapped
+            subs = [(m.group(0), m.start()) for m in re.finditer(r'[A-Za-z_$][A-Za-z0-9_$]*|\d[\w.]*|>=|<=|\|\||[<>^~=]|"[^"]*"|\'[^\']*\'|\S', text)]
+            if style != 'lines' and rng.random() < 0.6 and all(ord(c) < 128 for c in text) and '/*' not in text and '//' not in text:
+                pieces = []
+                for j, (tok, off) in enumerate(subs):
+                    if j > 0:
+                        prev_tok = subs[j - 1][0]
+                        glue_ok = (prev_tok in ('>=', '<=', '<', '>', '^', '~', '=') or tok in (';', '>=', '<=', '<', '>', '^', '~', '=', '||')) \
+                            and not (prev_tok[0].isalnum() and tok[0].isalnum())
+                        seps = [' ', '  ', '\t', '\n', '\r\n', ' \n '] + (['', ''] if glue_ok and j >= 2 else [])
+                        pieces.append(rng.choice(seps))
+                    smap.setdefault(s + off, cur + sum(len(x) for x in pieces))
+                    emap.setdefault(s + off, cur + sum(len(x) for x in pieces))
+                    pieces.append(tok)
+                text = ''.join(pieces)
+            else:
+                # copied verbatim: offsets inside it (identifier, value) move with it
+                for k in range(e - s + 1):
+                    smap.setdefault(s + k, cur + k)
+                    emap.setdefault(s + k, cur + k)
         emit(text)
         emap[e] = cur
         if i == len(toks) - 1:
